@@ -188,14 +188,15 @@ def putFile (fs : FS) (k : Key) (content : Bytes) (perms : Option Nat) : Except 
       let fs3 := match perms with | some p => fs2.setMode k p | none => fs2
       .ok (fs3.appendBytes k content)
 
-/-- reject files: written if the directory exists in the final tree -/
+/-- reject files: written if the directory exists in the final tree; a reject whose path leads through a
+regular file (for example another reject file) is skipped like one whose directory does not exist -/
 def putRejects (fs : FS) : List (Bytes × Bytes) → Except Unit FS
   | [] => .ok fs
   | (name, content) :: rest =>
     match safeKey name with
     | none => .error ()
     | some k =>
-      if fs.fileOnPath k then .error ()
+      if fs.fileOnPath k then putRejects fs rest
       else if !fs.isDir k.dropLast then putRejects fs rest
       else match putFile fs k content none with
         | .error e => .error e
